@@ -21,7 +21,7 @@ TEXT = ("Thin claim: the round-trip sentence of C04 (flatten -> diff -> store ->
         "encoding of the path, the path handed down to a field value extends the incoming path by the owner's identifier and the field key, "
         "and array descriptor identifiers are an injective function of (owner, key) - three open "
         "known findings (F10-F12)."
-        " U5: every return of update that can be a success passes through both per-object passes over the submitted document.")
+        " U5: every return of update that can be a success passes through both per-object passes over the submitted document. U6: delete_object records the deletion of a vanished object under nothing but `its winner is neither a deletion nor a marker` (no scan of the other leaves). U7: DataStorage::read_object enters the character-code branch only after the reserved kinds whose digest is itself a character code ('d', 'e': constants read from MIR) were excluded.")
 TECHNIQUE = 'static analysis over rustc MIR: edge dominance on change tests in update_object/commit, encoder/decoder prefix-table agreement and injectivity of composed identifiers'
 TRUSTED = ["rustc nightly MIR", "effect summaries", "yavomrs returns an empty script for equal sequences"]
 
@@ -274,18 +274,23 @@ def run(facts, res):
         hexlike = sorted(k_ for k_, v_ in kinds.items() if v_ and len(v_) <= 8 and all(ch in _string.hexdigits for ch in v_))
         from ..common import members_of as _mo7
         for m_ in _mo7(facts, ro):
-            for ob_, st_ in assigns_of_return(m_, "Ok"):
-                ls_ = lits_of(m_, ob_, facts)
-                if not any(l.kind == "call" and callee_name(l.term) == "is_charcode" and l.truth is True for l in ls_):
+            seen7 = set()
+            for bi_, blk_ in enumerate(m_.blocks):
+                if blk_.cleanup:
                     continue
+                ls_ = lits_of(m_, bi_, facts)
+                cc_ = [l for l in ls_ if l.kind == "call" and callee_name(l.term) == "is_charcode" and l.truth is True and not l.implied]
+                if not cc_ or cc_[0].block in seen7:
+                    continue
+                seen7.add(cc_[0].block)
                 n7 += 1
                 missing = [k_ for k_ in hexlike if not any(l.kind == "call" and callee_name(l.term) == k_ and l.truth is False for l in ls_)]
-                res.instance("U7", "read_object: the character-object value is built only after %s were excluded: %s" % (hexlike, not missing), m_.loc(st_.line))
+                res.instance("U7", "read_object: the character-code branch is entered only after %s were excluded: %s" % (hexlike, not missing), m_.loc())
                 if missing:
                     res.violation("U7", "read_object|charcode-before-reserved-kind:%s" % ",".join(missing),
                                   "DataStorage::read_object tests is_charcode before %s although the digest of that kind is itself a character code: "
-                                  "such a revision reads back as a character object" % missing, m_.loc(st_.line))
-    res.floor("U7", "character-object value sites in read_object", n7, 1)
+                                  "such a revision reads back as a character object" % missing, m_.loc())
+    res.floor("U7", "character-code branches in read_object", n7, 1)
 
     res.rule("U4", "object references are uniquely decodable: no accepted identifier carries a prefix the decoder dispatches on; generated identifiers are injective in the path")
     gi = facts.body("utils::generate_identifier")
